@@ -55,13 +55,26 @@ var (
 				if !is {
 					return nil, fmt.Errorf("//re.compile(re).subf: s not a string: %v", a)
 				}
-				return rel.NewString([]rune(regex.ReplaceAllStringFunc(s, func(match string) string {
-					result, err := rel.Call(ctx, a, rel.NewString([]rune(match)), rel.EmptyScope)
+				var err error
+				replaced := regex.ReplaceAllStringFunc(s, func(match string) string {
 					if err != nil {
-						panic(err)
+						return ""
 					}
-					return result.(rel.String).String()
-				}))), nil
+					var result rel.Value
+					result, err = rel.Call(ctx, a, rel.NewString([]rune(match)), rel.EmptyScope)
+					if err != nil {
+						return ""
+					}
+					str, is := tools.ValueAsString(result)
+					if !is {
+						err = fmt.Errorf("//re.compile(re).subf: replacement not a string: %v", result)
+					}
+					return str
+				})
+				if err != nil {
+					return nil, err
+				}
+				return rel.NewString([]rune(replaced)), nil
 			}),
 		), nil
 	})
